@@ -243,14 +243,25 @@ def make_env(inst, filt, rng):
     types = [FeatureObserverType.IS_READY, FeatureObserverType.DURATION,
              FeatureObserverType.IS_SCHEDULED, FeatureObserverType.POSITION_IN_JOB,
              FeatureObserverType.REMAINING_OPERATIONS, FeatureObserverType.IS_COMPLETED]
+    kw = {}
+    if rng.random() < 0.4:
+        # lean configuration: no component that brings an unscheduled-operations observer along
+        from job_shop_lib.graphs.graph_updaters import ResidualGraphUpdater
+        types = [FeatureObserverType.IS_READY, FeatureObserverType.DURATION]
+        kw["graph_updater_config"] = DispatcherObserverConfig(
+            ResidualGraphUpdater, kwargs={"remove_completed_machine_nodes": False,
+                                          "remove_completed_job_nodes": False})
     cfgs = [DispatcherObserverConfig(t) for t in types]
     return SingleJobShopGraphEnv(builder(instance), cfgs,
-                                 ready_operations_filter=gen.make_filter(filt)), instance
+                                 ready_operations_filter=gen.make_filter(filt), **kw), instance
 
 
-def env_snapshot(env):
+def env_snapshot(env, subscribers=False):
     st = _snap.dispatcher_state(env.dispatcher)
-    st.pop("subscribers")
+    if not subscribers:
+        st.pop("subscribers")   # object identities: comparable only within one environment
+    else:
+        st["subscriber_types"] = [type(x).__name__ for x in env.dispatcher.subscribers]
     st["obs"] = _snap.obs_state(env.get_observation())
     st["graph"] = _snap.graph_state(env.job_shop_graph)
     st["rewards"] = list(env.reward_function.rewards)
@@ -286,13 +297,13 @@ def run_env_case(ctx, case):
         bad.append(("env_job_out_of_range", (J, -1)))
         bad.append(("env_job_out_of_range", (J + 7, 0)))
         for kind, action in bad:
-            before = env_snapshot(envA)
+            before = env_snapshot(envA, True)
             raised = None
             try:
                 envA.step(action)
             except Exception as e:
                 raised = type(e).__name__
-            after = env_snapshot(envA)
+            after = env_snapshot(envA, True)
             ctx.count("env_injections")
             ctx.count("kind_" + kind)
             w = {"fault": kind, "action": action, "position": pos,
@@ -360,7 +371,7 @@ def run_multi_env_case(ctx, case):
             bad.append(("env_job_out_of_range", (J, -1)))
             for kind, action in bad:
                 inner = env.single_job_shop_graph_env
-                before = env_snapshot(inner)
+                before = env_snapshot(inner, True)
                 raised = None
                 try:
                     env.step(action)
@@ -373,7 +384,7 @@ def run_multi_env_case(ctx, case):
                 if raised is None:
                     ctx.violation("c09_env_invalid_step_accepted", w)
                     return
-                if env_snapshot(env.single_job_shop_graph_env) != before:
+                if env_snapshot(env.single_job_shop_graph_env, True) != before:
                     ctx.violation("c09_env_state_changed_by_rejected_step", w)
                 if r.scheduled() and r.unscheduled():
                     ctx.distinct.add(f"multi:{hash((str(inst), tuple(r.history), kind, action))}")
